@@ -311,6 +311,95 @@ func buildHeader(h *Sx) *message.IKEHeader {
 	}
 }
 
+// mutateInPlace changes one field of one payload object of m (not of EAP payloads: their rendering is not an input
+// form) and says what it changed; "" if there was nothing to change
+func mutateInPlace(g *Gen, m *message.IKEMessage) string {
+	if len(m.Payloads) == 0 {
+		m.MessageID++
+		return "the Message ID"
+	}
+	for _, p := range m.Payloads {
+		if _, isEap := p.(*message.PayloadEap); isEap {
+			return ""
+		}
+	}
+	flip := func(b []byte) bool {
+		if len(b) == 0 {
+			return false
+		}
+		b[g.r.Intn(len(b))] ^= 0x21
+		return true
+	}
+	switch x := m.Payloads[g.r.Intn(len(m.Payloads))].(type) {
+	case *message.SecurityAssociation:
+		if len(x.Proposals) > 0 {
+			pr := x.Proposals[g.r.Intn(len(x.Proposals))]
+			for _, c := range []message.TransformContainer{pr.EncryptionAlgorithm, pr.PseudorandomFunction, pr.IntegrityAlgorithm, pr.DiffieHellmanGroup, pr.ExtendedSequenceNumbers} {
+				if len(c) > 0 {
+					c[g.r.Intn(len(c))].TransformID ^= 0x0101
+					return "a transform identifier"
+				}
+			}
+			pr.ProposalNumber++
+			return "a proposal number"
+		}
+	case *message.KeyExchange:
+		if flip(x.KeyExchangeData) {
+			return "an octet of the key exchange data"
+		}
+	case *message.IdentificationInitiator:
+		x.IDType++
+		return "the ID type"
+	case *message.IdentificationResponder:
+		if flip(x.IDData) {
+			return "an octet of the ID data"
+		}
+	case *message.Certificate:
+		if flip(x.CertificateData) {
+			return "an octet of the certificate data"
+		}
+	case *message.CertificateRequest:
+		x.CertificateEncoding++
+		return "the certificate encoding"
+	case *message.Authentication:
+		if flip(x.AuthenticationData) {
+			return "an octet of the authentication data"
+		}
+	case *message.Nonce:
+		if flip(x.NonceData) {
+			return "an octet of the nonce"
+		}
+	case *message.Notification:
+		x.NotifyMessageType ^= 0x0100
+		return "the notify message type"
+	case *message.Delete:
+		if len(x.SPIs) > 0 {
+			x.SPIs[0]++
+			return "an SPI of a Delete payload"
+		}
+	case *message.VendorID:
+		if flip(x.VendorIDData) {
+			return "an octet of the vendor ID"
+		}
+	case *message.TrafficSelectorInitiator:
+		if len(x.TrafficSelectors) > 0 {
+			x.TrafficSelectors[0].EndPort++
+			return "a selector port"
+		}
+	case *message.TrafficSelectorResponder:
+		if len(x.TrafficSelectors) > 0 && flip(x.TrafficSelectors[0].StartAddress) {
+			return "an octet of a selector address"
+		}
+	case *message.Configuration:
+		if len(x.ConfigurationAttribute) > 0 {
+			x.ConfigurationAttribute[0].Type ^= 1
+			return "a configuration attribute type"
+		}
+	}
+	m.Flags ^= 0x20
+	return "the header flags"
+}
+
 var buildMsgCtr int
 
 func buildMsg(s *Sx) *message.IKEMessage {
